@@ -332,19 +332,29 @@ theorem remove_deleted_ids (b : Box) (hnd : (b.rows.map (·.id)).Nodup) :
       subst this
       rw [hd] at hd'; cases hd'
 
+/-- the messages `Mailbox.Expunge` hands to the index: marked `\Deleted` in the snapshot and without a pending `expunge`
+    responder (`State.pendingExpunges`, fix 9c5a27f) -/
+def expungeIds (me : Sess) : List MsgId :=
+  ((me.snap.filter (·.toExpunge)).map (·.id)).filter fun id => !me.res.contains (.expunge id)
+
+theorem expungeIds_of_res_nil {me : Sess} (hres : me.res = []) : expungeIds me = (me.snap.filter (·.toExpunge)).map (·.id) := by
+  simp [expungeIds, hres]
+
 /-- the index after `EXPUNGE` of session `i` (its flushes do not touch the index) -/
 theorem expunge_idx {s : Sys} {i : Nat} {me : Sess} {mb : Nat} (hi : s.sess[i]? = some me) (hs : me.sel = some mb) :
     (step s (.cmd i .expunge)).1.idx =
-      if (((me.snap.filter (·.toExpunge)).map (·.id)).filter (s.idx.box mb).has).isEmpty then s.idx
-      else s.idx.setBox mb ((s.idx.box mb).remove (((me.snap.filter (·.toExpunge)).map (·.id)).filter (s.idx.box mb).has)) := by
-  by_cases hemp : (((me.snap.filter (·.toExpunge)).map (·.id)).filter (s.idx.box mb).has).isEmpty = true
-  · simp [step, hi, effect, hs, hemp]
-  · simp [step, hi, effect, hs, hemp, removeFrom]
+      if ((expungeIds me).filter (s.idx.box mb).has).isEmpty then s.idx
+      else s.idx.setBox mb ((s.idx.box mb).remove ((expungeIds me).filter (s.idx.box mb).has)) := by
+  unfold expungeIds
+  by_cases hemp : ((((me.snap.filter (·.toExpunge)).map (·.id)).filter fun id => !me.res.contains (.expunge id)).filter
+      (s.idx.box mb).has).isEmpty = true
+  · simp only [step, hi, effect, hs, hemp, if_true]
+  · simp only [step, hi, effect, hs, hemp, Bool.false_eq_true, if_false, removeFrom]
 
 /-- **EXPUNGE by a session whose marks are the `\Deleted` column of its mailbox is the reference EXPUNGE**: the
     `\Deleted` rows of that mailbox leave; every other mailbox, every message's flags and the id counter stay -/
 theorem expunge_of_marks {s : Sys} (hwf : s.idx.Wf) {i : Nat} {me : Sess} {mb : Nat} (hi : s.sess[i]? = some me)
-    (hs : me.sel = some mb) (hmb : mb < s.idx.boxes.length)
+    (hs : me.sel = some mb) (hmb : mb < s.idx.boxes.length) (hres : me.res = [])
     (hmarks : (me.snap.filter (·.toExpunge)).map (·.id) = ((s.idx.box mb).rows.filter (·.deleted)).map (·.id)) :
     (step s (.cmd i .expunge)).1.idx.box mb = (s.idx.box mb).expunged ∧
     (∀ mb', mb' ≠ mb → (step s (.cmd i .expunge)).1.idx.box mb' = s.idx.box mb') ∧
@@ -360,7 +370,7 @@ theorem expunge_of_marks {s : Sys} (hwf : s.idx.Wf) {i : Nat} {me : Sess} {mb : 
     simp only [List.mem_map, List.mem_filter] at hid ⊢
     obtain ⟨r, ⟨hr, _⟩, rfl⟩ := hid
     exact ⟨r, hr, rfl⟩
-  rw [expunge_idx hi hs, hmarks, hall]
+  rw [expunge_idx hi hs, expungeIds_of_res_nil hres, hmarks, hall]
   split
   · next hemp =>
     have hnone : (s.idx.box mb).expunged = s.idx.box mb := by
